@@ -562,6 +562,33 @@ func c17Bezier(args []string) error {
 			}
 		}
 	}
+	// a tight hook right at an end of the curve (a handle of a few per cent of the span at right angles to the
+	// control polygon): the piece next to the end point is still not flat when the sampler's recursion limit is
+	// reached, so the end point has to come out of that exit too
+	for _, a := range []float64{0.02, 0.03, 0.04, 0.05, 0.07} {
+		for _, sc := range []float64{1, 37.5} {
+			for _, rev := range []bool{false, true} {
+				for rep := 0; rep < 3; rep++ {
+					id++
+					cp := []bezPt{{0, 0, 0}, {a * sc, 0, 1}, {0, sc, 1}, {sc, sc, 0}}
+					if rev {
+						cp = []bezPt{{sc, sc, 0}, {0, sc, 1}, {a * sc, 0, 1}, {0, 0, 0}}
+					}
+					v := bezVec{Pts: cp}
+					vv := v
+					o := bezObs{Kind: "hook", V: &vv, Id: id}
+					emit(measureBezier(o, func(b *sdf.Bezier) {
+						for _, p := range v.Pts {
+							bv := b.Add(p.X, p.Y)
+							if p.Mid == 1 {
+								bv.Mid()
+							}
+						}
+					}, spansOf(v.Pts, false), false))
+				}
+			}
+		}
+	}
 	// random control polygons and handle specifications
 	rnd := rand.New(rand.NewSource(seed()*15485863 + 171))
 	n := 250
